@@ -1,7 +1,7 @@
 (* C01 / C03 / C04, tie to the method bodies (continued): from the pinned bodies (Proofs/PrimOpsP.v known_sound) to the
    rows of the regenerated table. *)
 From Coq Require Import String.
-From PV Require Import Thrift.Len Thrift.Msg Thrift.PrimOp Thrift.PrimOpsSem Thrift.PrimOpsKnown Generated.PrimOps.
+From PV Require Import Thrift.Len Thrift.Msg Thrift.Async Thrift.PrimOp Thrift.PrimOpsSem Thrift.PrimOpsRSem Thrift.PrimOpsKnown Generated.PrimOps.
 From PV Require Import Proofs.VarintP Proofs.TablesP Proofs.PrimP Proofs.HeaderP Proofs.RoundtripP Proofs.LenP Proofs.PrimOpsP.
 From Coq Require Import ZifyN ZifyNat ZifyBool.
 Open Scope Z_scope.
@@ -18,6 +18,24 @@ Proof. unfold row_core, entry_core. intros H. injection H as H1 H2 H3 H4. unfold
    for the protocol of its struct, every buffer kind, every argument and every writer context the Rust types allow.
    Writers: same bytes (the flattened segments) and same final context, same error, same panic.  Length methods: same
    number and same final context. *)
+Lemma core_run_r async p r e s : row_core r = entry_core e -> run_r async p r s = run_r async p (row_of e) s.
+Proof. unfold row_core, entry_core. intros H. injection H as H1 H2 H3 H4. unfold run_r, row_of. cbn [r_body r_value]. rewrite H3, H4. reflexivity. Qed.
+
+Lemma row_entry r : In r prim_ops ->
+  row_core r = entry_core (entry_of r) /\ In (r_proto r) (e_protos (entry_of r)) /\
+  In (r_flavour r) (e_flavours (entry_of r)) /\ sound (entry_of r).
+Proof.
+  intros Hr. destruct table_known as (T1 & T2 & T2' & T3).
+  pose proof T1 as Hcore. rewrite map_ext_in_iff in Hcore. specialize (Hcore r Hr). cbv beta in Hcore.
+  rewrite forallb_forall in T2, T2', T3. specialize (T2 r Hr). specialize (T2' r Hr). specialize (T3 r Hr).
+  apply Nat.ltb_lt in T3.
+  assert (Hin : In (entry_of r) known) by (apply nth_In; exact T3).
+  split; [exact Hcore|]. split; [|split].
+  - apply existsb_exists in T2 as (pr & Hpr & Epr). apply String.eqb_eq in Epr. subst pr. exact Hpr.
+  - apply existsb_exists in T2' as (pr & Hpr & Epr). apply String.eqb_eq in Epr. subst pr. exact Hpr.
+  - exact (proj1 (Forall_forall _ _) known_sound _ Hin).
+Qed.
+
 Theorem prim_ops_model : forall r, In r prim_ops ->
   forall p, pk_of (r_proto r) = Some p ->
   forall k a c, args_ok (r_method r) a c ->
@@ -25,20 +43,32 @@ Theorem prim_ops_model : forall r, In r prim_ops ->
     (r_class r = "len"%string -> exists l, lspec p (r_method r) a = Some l /\ run_l p r a c = l c).
 Proof.
   intros r Hr p Hp k a c Hok.
-  destruct table_known as (T1 & T2 & T3).
-  pose proof T1 as Hcore. rewrite map_ext_in_iff in Hcore. specialize (Hcore r Hr). cbv beta in Hcore.
-  rewrite forallb_forall in T2, T3. specialize (T2 r Hr). specialize (T3 r Hr).
-  apply Nat.ltb_lt in T3.
-  assert (Hin : In (entry_of r) known) by (apply nth_In; exact T3).
-  pose proof (proj1 (Forall_forall _ _) known_sound _ Hin) as S.
-  apply existsb_exists in T2 as (pr & Hpr & Epr). apply String.eqb_eq in Epr. subst pr.
+  destruct (row_entry r Hr) as (Hcore & Hpr & _ & S).
   assert (Hm : r_method r = e_method (entry_of r)) by (unfold row_core, entry_core in Hcore; congruence).
   assert (Hc : r_class r = e_class (entry_of r)) by (unfold row_core, entry_core in Hcore; congruence).
   rewrite Hm in Hok |- *. rewrite Hc.
-  destruct (S (r_proto r) p Hpr Hp k a c Hok) as [SW SL].
+  destruct (S (r_proto r) p Hpr Hp) as (SW & SL & _).
   split; intros Hcls.
-  - destruct (SW Hcls) as (w & E1 & E2). exists w. split; [exact E1|]. rewrite (core_run_w p k r _ a c Hcore). exact E2.
-  - destruct (SL Hcls) as (l & E1 & E2). exists l. split; [exact E1|]. rewrite (core_run_l p r _ a c Hcore). exact E2.
+  - destruct (SW Hcls k a c Hok) as (w & E1 & E2). exists w. split; [exact E1|]. rewrite (core_run_w p k r _ a c Hcore). exact E2.
+  - destruct (SL Hcls k a c Hok) as (l & E1 & E2). exists l. split; [exact E1|]. rewrite (core_run_l p r _ a c Hcore). exact E2.
+Qed.
+
+(* ... and every reader row (in-memory and asynchronous, the methods the translator lowers) IS the reader primitive of
+   Proto.v / Async.v selected by its method name: same value, same remaining input and context, same error, on every
+   reader state *)
+Theorem prim_ops_model_read : forall r, In r prim_ops -> r_class r = "read"%string ->
+  forall p, pk_of (r_proto r) = Some p ->
+  exists m, rspec (seqb (r_flavour r) "async") p (r_method r) = Some m /\
+    forall s, run_r (seqb (r_flavour r) "async") p r s = m s.
+Proof.
+  intros r Hr Hcls p Hp.
+  destruct (row_entry r Hr) as (Hcore & Hpr & Hfl & S).
+  assert (Hm : r_method r = e_method (entry_of r)) by (unfold row_core, entry_core in Hcore; congruence).
+  assert (Hc : r_class r = e_class (entry_of r)) by (unfold row_core, entry_core in Hcore; congruence).
+  rewrite Hc in Hcls. rewrite Hm.
+  destruct (S (r_proto r) p Hpr Hp) as (_ & _ & SR).
+  destruct (SR Hcls (r_flavour r) Hfl) as (m & E1 & E2). exists m. split; [exact E1|].
+  intros s. rewrite (core_run_r _ p r _ s Hcore). apply E2.
 Qed.
 
 (* the primitives the writer rows are compared with do not depend on the buffer kind, up to flattening *)
